@@ -561,6 +561,23 @@ def crc_fact(st):
             if any(isinstance(b, tuple) and b[0][0][0] == "CRC" for b in x if isinstance(b, tuple)):
                 probs = []
                 key = None
+                # zero-residue form: CRC-24Q (zero initial value, no reflection, no final xor, generator with a non-zero constant term - the
+                # parameters C04's G-alg / A-crc rules check) over header, payload AND the three trailer bytes is 0 exactly when the trailer
+                # equals the CRC of header and payload: appending t to M maps the register r = crc(M) to crc_3(r ^ t << ..), and three more
+                # byte steps of an invertible linear map send only the zero difference to zero.  So `crc(input[0 .. L+6]) == 0` IS the
+                # 24-bit comparison of the property.
+                k0 = None
+                if all(isinstance(b_, tuple) and b_[0] == (b_[0][0],) and b_[0][0][0] == "CRC" and b_[0][0][2] == i_ and b_[1] == 0b10 for i_, b_ in enumerate(x[:24])) \
+                        and all(b_ == 0 for b_ in x[24:]) and all(b_ == 0 for b_ in y):
+                    k0 = x[0][0][0][1]
+                    rs = sorted(k0)
+                    cur = None
+                    okr = True
+                    for (a0, c0), (a1, c1) in rs:
+                        okr = okr and ((a0, c0) == ((0, 0) if cur is None else cur))
+                        cur = (a1, c1)
+                    if okr and cur == (1, 6):
+                        return truth, []
                 for i in range(max(24, len(x), len(y))):
                     xb = x[i] if i < len(x) else 0
                     yb = y[i] if i < len(y) else 0
